@@ -2,7 +2,7 @@
    Property.v (by computation).  The unchanged code satisfies C16, so there is no
    [..._legacy_refuted] lemma here. *)
 From Coq Require Import ZArith List Bool.
-From Verif Require Import C16.Model C16.Proofs.
+From Verif Require Import C16.Model C16.Proofs C16.ProofsWorld.
 Import ListNotations.
 Open Scope Z_scope.
 
@@ -258,3 +258,37 @@ Example ex_wire_and_external :
 Proof.
   split; [cbn; auto|]. split; [|reflexivity]. exists [(0%nat, Raw 3)], (Raw 3). cbn. auto.
 Qed.
+
+(* ---- the caller's own mapping object, passed to execute() three times (the third on another executor) and
+   rewritten by the caller in between: consumer declared before its producer, an explicitly labelled external
+   value on its second port.  Every run is the same run (producer first, then the consumer), and the caller
+   finds in his mapping what he put there: no delivered value. ---- *)
+Definition re_mods := [mkModule [(DJson, Validated); (DJson, Validated)] [] []; mkModule [] [(DJson, Validated)] [CNet]].
+Definition re_hs := hs [HSRet []; HSRet [(0%nat, SV (Raw 5))]].
+Definition re_ext : extin := [(0%nat, [(1%nat, Lab (mkTV DJson Validated 9))])].
+Definition re_ops : list cop :=
+  [CExecRef 0 true; CExecRef 0 true; COp XNew; COp (XReg 1%nat (h_of (HSRet [(0%nat, SV (Raw 5))])));
+   COp (XReg 0%nat (h_of (HSRet []))); CExecRef 0 true; CAssign 0 []; CExecRef 0 true].
+Example ex_reused_mapping :
+  build re_mods [(1, 0, 0, 0)%nat] = [(1, 0, 0, 0)%nat] /\
+  map (fun e => match e with
+                | CEv (EvExec _ _ _ (Report order _, calls)) => (0, order ++ map fst calls, [])
+                | CEv (EvExec _ _ _ (Raised e, calls)) => (err_code e, map fst calls, [])
+                | CEvStore k c => (8, [k], c)
+                | _ => (-1, [], [])
+                end) (run_cops re_mods (build re_mods [(1, 0, 0, 0)%nat]) re_hs [re_ext] re_ops)
+  = [(0, [1; 0; 1; 0]%nat, []); (8, [0%nat], re_ext); (0, [1; 0; 1; 0]%nat, []); (8, [0%nat], re_ext);
+     (-1, [], []); (-1, [], []); (-1, [], []); (0, [1; 0; 1; 0]%nat, []); (8, [0%nat], re_ext);
+     (1, [], []); (8, [0%nat], [])] /\
+  resolve [re_ext] re_ops = [XExec re_ext true; XExec re_ext true; XNew; XReg 1%nat (h_of (HSRet [(0%nat, SV (Raw 5))]));
+                             XReg 0%nat (h_of (HSRet [])); XExec re_ext true; XExec [] true].
+Proof. split; [reflexivity|]. split; [vm_compute; reflexivity|reflexivity]. Qed.
+
+(* ---- one ModuleSpec (src, {NET}) in two diagrams: the big one is asked first, then the small one, then the
+   caller empties / extends the set he was handed and asks again ---- *)
+Example ex_shared_module_capabilities :
+  let r := cap_run [[1; 0; 2]%nat; [1%nat]; []] (mkCW (map m_caps ok_mods) []) [QCaps 0; QCaps 1; QClear; QCaps 0; QAdd CMoney; QCaps 1; QCaps 2] in
+  fst r = [(0%nat, [CNet; CWriteFs; CExecCode]); (1%nat, [CNet]); (0%nat, [CNet; CWriteFs; CExecCode]); (1%nat, [CNet]); (2%nat, [])] /\
+  cw_caps (snd r) = [[CWriteFs]; [CNet]; [CNet; CExecCode]] /\
+  cw_held (snd r) = [].
+Proof. vm_compute. auto. Qed.
